@@ -4589,6 +4589,16 @@ class Interp:
             if ks0 and all(isinstance(k, type) and k in (str, int, float, bool, list, tuple, dict, set, bytes, type(None), frozenset) for k in ks0) \
                and _plain(args[0]) and not isinstance(args[0], (TextObj, TokStr, M._StringLetters, ListObj)):
                 return isinstance(args[0], tuple(ks0))         # builtin types held in a table of the analysed code
+            if ks0 and all(isinstance(k, type) and k in (str, int, float, bool, list, tuple, dict, set, bytes, frozenset) for k in ks0) \
+               and type(args[0]) in (list, dict, tuple, set, frozenset):
+                return isinstance(args[0], tuple(ks0))         # a container of the heap (whatever it holds) is of its own builtin type
+            if ks0 and all(isinstance(k, type) and k in (str, int, float, bool, list, tuple, dict, set, bytes, frozenset) for k in ks0) \
+               and isinstance(args[0], Obj) and isinstance(args[0].cls, M.ClassInfo) and self.model is not None and '__isa' not in args[0].attrs:
+                ext = {b.name.split('.')[-1] for b in self.model.mro(args[0].cls) if isinstance(b, M.External)}
+                if any(k.__name__ in ext for k in ks0):
+                    return True
+                if ext <= {'object'}:
+                    return False              # an object of a class of the analysed code that derives from no builtin type
         if fname == 'isinstance' and 'isinstance' not in s.env and len(args) == 2 and self.model is not None:
             ks = list(args[1]) if isinstance(args[1], tuple) else [args[1]]
             if ks and all(isinstance(k, (M.ClassInfo, type)) for k in ks) and any(isinstance(k, M.ClassInfo) for k in ks):
@@ -4684,6 +4694,8 @@ class Interp:
                 return TOP
         if fname == 'type' and 'type' not in s.env and len(args) == 1 and not kwargs and self.heap and isinstance(args[0], Obj) \
            and isinstance(args[0].cls, M.ClassInfo) and not isinstance(args[0], EnumVal) and '__classobj' not in args[0].attrs:
+            if '__class__' in args[0].attrs:
+                return args[0].attrs['__class__']          # the scenario gave the object a class object of its own
             return args[0].cls                # the class of a heap object of the analysed code (when the scenario does not say otherwise)
         if fname == 'type' and 'type' not in s.env and len(args) == 1 and not kwargs and _plain(args[0]) and not isinstance(args[0], (TextObj, TokStr, M._StringLetters)):
             return type(args[0])
@@ -4992,7 +5004,8 @@ class Interp:
         if not (isinstance(n.func, ast.Attribute) and _text(n.func.value) in _NOTHROW) and fname not in _NOTHROW_CALLS:
             self._maythrow += 1
         if self.heap and isinstance(n.func, ast.Attribute) and fval is TOP and n.func.attr in ('append', 'appendChild', 'insert', 'extend', 'remove', 'add', 'update') \
-           and any(isinstance(a, (Obj, TextObj)) for a in args):
+           and any(isinstance(a, (Obj, TextObj)) for a in args) and '__exc' not in s.env:
+            # (with an exception pending from the receiver expression - refs[label] of a missing key - the call never happens)
             self.imprecise.append('%s(...) on a receiver that is not modelled: its effect is lost (line %s)' % (fname, n.lineno))
         if isinstance(n.func, (ast.Subscript, ast.Call, ast.IfExp, ast.BoolOp, ast.NamedExpr)) and self.heap:
             # a computed callee (a dispatch table, a conditional, the result of another call) that was not followed: whatever it does is lost
@@ -5233,11 +5246,17 @@ class Interp:
             if meth == 'reverse' and not args:
                 recv.reverse()
                 return None
-            if meth in ('append', 'extend', 'insert', 'pop', 'remove', 'clear', 'sort', 'reverse', '__setitem__', '__delitem__'):
-                self.imprecise.append('list.%s with arguments that are not modelled: its effect is lost' % meth)
             if meth == 'clear' and not args:
                 del recv[:]
                 return None
+            if meth == 'sort' and not args and set(kwargs) <= {'reverse'} and all(_plain(x) for x in recv) and isinstance(kwargs.get('reverse', False), bool):
+                try:
+                    recv.sort(**kwargs)
+                    return None
+                except TypeError:
+                    pass
+            if meth in ('append', 'extend', 'insert', 'pop', 'remove', 'clear', 'sort', 'reverse', '__setitem__', '__delitem__'):
+                self.imprecise.append('list.%s with arguments that are not modelled: its effect is lost' % meth)
             return TOP
         if isinstance(recv, dict):
             if meth == 'get' and args and is_concrete(args[0]):
